@@ -4,6 +4,7 @@ import (
 	"fmt"
 	"go/token"
 	"go/types"
+	"unsafe"
 
 	"golang.org/x/tools/go/ssa"
 )
@@ -615,14 +616,31 @@ func (x *Exec) callBuiltin(fr *frame, site ssa.Instruction, fn *ssa.Builtin, arg
 	case "SliceData":
 		return &sliceDataPtr{s: args[0].(Slice)}
 	case "String": // unsafe.String(ptr, len)
-		sd, ok := args[0].(*sliceDataPtr)
-		if !ok {
-			abortf("unsafe.String of %T", args[0])
-		}
 		n := x.asInt(fr, args[1], "unsafe.String len")
 		r := make([]*Term, n)
-		for i := 0; i < n; i++ {
-			r[i] = sd.s.v[i].(*Term)
+		switch sd := args[0].(type) {
+		case *sliceDataPtr:
+			for i := 0; i < n; i++ {
+				r[i] = sd.s.v[i].(*Term)
+			}
+		case *Value:
+			// &b[0]: a pointer to the first of n contiguous interpreter cells of one backing array
+			if sd == nil {
+				if n != 0 {
+					abortf("unsafe.String(nil, %d)", n)
+				}
+				return Str{}
+			}
+			cells := unsafe.Slice(sd, n)
+			for i := 0; i < n; i++ {
+				t, ok := cells[i].(*Term)
+				if !ok {
+					abortf("unsafe.String over non-byte cells")
+				}
+				r[i] = t
+			}
+		default:
+			abortf("unsafe.String of %T", args[0])
 		}
 		return Str{r}
 	case "StringData":
